@@ -2547,6 +2547,9 @@ namespace bloch::runtime {
                     throw BlochError(ErrorCategory::Runtime, bin->line, bin->column,
                                      "modulo by zero");
                 }
+                // x % -1 is always 0; computing it natively traps for the minimum long.
+                if (rInt == -1)
+                    lInt = 0;
                 if (hasLong) {
                     Value v;
                     v.type = Value::Type::Long;
